@@ -8,7 +8,11 @@ import (
 	"go/constant"
 	"go/token"
 	"go/types"
+	"os"
+	"path/filepath"
+	"sort"
 	"strings"
+	"verif/rcheck/luafront"
 
 	"golang.org/x/tools/go/ssa"
 
@@ -1972,4 +1976,300 @@ func r5C12(c *Ctx) {
 				ifs(fromStatus, "Replicas is read from "+t.String()+": while status.replicas differs from spec.replicas (surge, scale in flight) the label budget of a percentage batch is computed against another size than PlannedUpdatedReplicas, and more pods than planned get the batch label"))
 		}
 	}
+}
+
+// ================================================================ round 5, second batch
+
+func init() {
+	extend := func(id string, expl string, extra func(c *Ctx)) {
+		pr := Registry[id]
+		old := pr.Run
+		pr.Run = func(c *Ctx) { old(c); extra(c) }
+		pr.Explanation += " " + expl
+	}
+	extend("C15", "(R15.10) the shipped Istio scripts scale a weight by multiplying first and dividing last: no product has a quotient as an operand (w * (s / 100) is rounded before the multiplication and floors one below the exact split for some weights).", r5C15)
+	extend("C17", "(R17.9) the old-ReplicaSet list handed to reconcileOldReplicaSets is the active ones only (retired ReplicaSets still report available pods for a moment and would inflate the scale-down budget).", r5C17)
+	extend("C19", "(R19.9) no package-level variable holds a stateful helper (hash.Hash, bytes.Buffer, strings.Builder, rand.Rand …) that worker-reachable code uses: such a value is shared by all reconciles.", r5C19)
+	extend("C20", "(R20.6) in the TrafficRoutingStrategy converters a field is copied under a guard on that field alone; (R20.7) the strategy accessors that dereference the canary block when no blue-green block exists (GetRollingStyle and what is built on it) are called by the converters only after IsEmptyRelease() was found false.", r5C20)
+}
+
+func r5C15(c *Ctx) {
+	p := c.Prog
+	c.Rule("R15.10", "Lua weight scaling multiplies before it divides", 2)
+	// the matcher must be able to fire: a positive example is parsed on every run
+	if ex, err := luafront.ParseBytes("example.lua", []byte("function f(w, s) return math.floor(w * (s / 100)) end")); err != nil || len(ex.MulOfQuotient) != 1 {
+		c.Ob("R15.10", "matcher-self-test", 0, false, "the product-of-quotient matcher recognises its positive example", "self-test failed")
+		return
+	}
+	root := filepath.Join(p.Dir, "lua_configuration")
+	var files []string
+	_ = filepath.Walk(root, func(path string, info os.FileInfo, err error) error {
+		if err == nil && !info.IsDir() && strings.HasSuffix(path, ".lua") && !strings.Contains(path, "testdata") {
+			files = append(files, path)
+		}
+		return nil
+	})
+	sort.Strings(files)
+	for _, f := range files {
+		src, err := p.ReadFile(f)
+		if err != nil {
+			c.Ob("R15.10", strings.TrimPrefix(f, p.Dir+"/")+"#read", 0, false, "shipped script", err.Error())
+			continue
+		}
+		sc, err := luafront.ParseBytes(f, src)
+		if err != nil {
+			c.Ob("R15.10", strings.TrimPrefix(f, p.Dir+"/")+"#parse", 0, false, "shipped script parses", err.Error())
+			continue
+		}
+		rel := strings.TrimPrefix(f, p.Dir+"/")
+		c.Ob("R15.10", rel+"#multiply-then-divide", 0, len(sc.MulOfQuotient) == 0, "no product of a quotient",
+			ifs(len(sc.MulOfQuotient) > 0, fmt.Sprintf("line %v: a product has a quotient as operand — in floating point the quotient is rounded first, so e.g. 100 * (58/100) is 57.99999999999999 and floors to 57: the stable share is one short of 100-w for some weights", sc.MulOfQuotient)))
+	}
+}
+
+func r5C17(c *Ctx) {
+	p := c.Prog
+	c.Rule("R17.9", "reconcileOldReplicaSets receives the active old ReplicaSets", 1)
+	fn := p.Func("pkg/controller/deployment.DeploymentController.reconcileOldReplicaSets")
+	if fn == nil {
+		c.Unresolved("R17.9", "DeploymentController.reconcileOldReplicaSets")
+		return
+	}
+	// which parameter is the old list? the one ScaleDownLimitForOld / the scale-down helpers receive first
+	idx := -1
+	for i, q := range fn.Params {
+		if strings.HasPrefix(q.Type().String(), "[]") && strings.Contains(q.Type().String(), "ReplicaSet") {
+			idx = i // the last slice parameter is oldRSs (allRSs comes first)
+		}
+	}
+	n := 0
+	for _, cs := range p.Callers(fn) {
+		if cs.Kind != "static" || idx < 0 || idx >= len(cs.Args) {
+			continue
+		}
+		n++
+		ok := SliceHasDeep(cs.Args[idx], MCall("util.FilterActiveReplicaSets"))
+		c.Ob("R17.9", shortName(FuncName(cs.Caller))+"#old-list-is-active", cs.Instr.Pos(), ok, "the old list is filtered to ReplicaSets with replicas > 0",
+			ifs(!ok, "the list passed is "+TermOf(cs.Args[idx]).String()+": an old ReplicaSet already scaled to 0 whose pods are still reported available is counted in availablePodCount, and that many available pods too many are removed from the other old ReplicaSets"))
+	}
+	if n == 0 {
+		c.Unresolved("R17.9", "callers of reconcileOldReplicaSets")
+	}
+}
+
+func r5C19(c *Ctx) {
+	p := c.Prog
+	c.Rule("R19.9", "no stateful helper object is kept in a package-level variable", 1)
+	stateful := func(t types.Type) string {
+		s := t.String()
+		for _, pat := range []string{"hash.Hash", "bytes.Buffer", "strings.Builder", "math/rand.Rand", "bufio.Writer", "bufio.Reader", "encoding/json.Encoder", "encoding/json.Decoder", "text/template.Template"} {
+			if strings.HasSuffix(strings.TrimPrefix(s, "*"), pat) || strings.Contains(s, pat+"32") && pat == "hash.Hash" || strings.Contains(s, pat+"64") && pat == "hash.Hash" {
+				return pat
+			}
+		}
+		return ""
+	}
+	n := 0
+	seenPkg := map[*ssa.Package]bool{}
+	for _, fn := range p.RepoFuncs() {
+		if fn.Pkg == nil || seenPkg[fn.Pkg] {
+			continue
+		}
+		seenPkg[fn.Pkg] = true
+		var names []string
+		for name := range fn.Pkg.Members {
+			names = append(names, name)
+		}
+		sort.Strings(names)
+		for _, name := range names {
+			g, ok := fn.Pkg.Members[name].(*ssa.Global)
+			if !ok {
+				continue
+			}
+			n++
+			pt, ok := g.Type().(*types.Pointer)
+			if !ok {
+				continue
+			}
+			kind := stateful(pt.Elem())
+			if kind == "" {
+				continue
+			}
+			// used outside the package initialiser?
+			used := ""
+			for _, f := range p.RepoFuncs() {
+				if f.Name() == "init" || strings.HasPrefix(f.Name(), "init#") {
+					continue
+				}
+				for _, b := range f.Blocks {
+					for _, in := range b.Instrs {
+						for _, op := range in.Operands(nil) {
+							if *op == ssa.Value(g) {
+								used = shortName(FuncName(f)) + " at " + p.Pos(in.Pos())
+							}
+						}
+					}
+				}
+			}
+			c.Ob("R19.9", ShortPath(fn.Pkg.Pkg.Path())+"."+name+"#shared-stateful", g.Pos(), used == "", "package-level "+kind+" is not used by reconcile code",
+				ifs(used != "", "the package-level variable holds a "+kind+" and is used in "+used+": every worker resets, writes and reads the same object, so concurrent reconciles of different rollouts interleave their data (a data race, and e.g. a wrong revision hash for an unchanged workload)"))
+		}
+	}
+	if n == 0 {
+		c.Unresolved("R19.9", "package-level variables")
+	} else {
+		c.Ob("R19.9", "package-level-variables#scanned", 0, true, fmt.Sprintf("%d package-level variables examined", n), "")
+	}
+}
+
+func r5C20(c *Ctx) {
+	p := c.Prog
+	c.Rule("R20.6", "strategy converters copy each field under a guard on that field alone", 2)
+	for _, name := range []string{"api/v1alpha1.ConversionToV1beta1TrafficRoutingStrategy", "api/v1alpha1.ConversionToV1alpha1TrafficRoutingStrategy"} {
+		fn := p.Func(name)
+		if fn == nil {
+			c.Unresolved("R20.6", name)
+			continue
+		}
+		if len(fn.Params) == 0 {
+			continue
+		}
+		src := fn.Params[0]
+		srcFieldsOf := func(t *Term) map[string]bool {
+			out := map[string]bool{}
+			var rec func(x *Term)
+			rec = func(x *Term) {
+				if x == nil {
+					return
+				}
+				if x.Op == "field" {
+					root, path := x.FieldPath()
+					if root != nil && root.V == ssa.Value(src) && len(path) > 0 {
+						out[path[0]] = true
+					}
+				}
+				for _, a := range x.Args {
+					rec(a)
+				}
+			}
+			rec(t)
+			return out
+		}
+		bad := ""
+		n := 0
+		for _, b := range fn.Blocks {
+			for _, in := range b.Instrs {
+				st, ok := in.(*ssa.Store)
+				if !ok {
+					continue
+				}
+				fa, ok := st.Addr.(*ssa.FieldAddr)
+				if !ok {
+					continue
+				}
+				if _, isAlloc := rootOfObject(fa).(*ssa.Alloc); !isAlloc {
+					continue
+				}
+				dstField, _ := FieldOf(fa)
+				// source fields the stored value is made of
+				from := map[string]bool{}
+				for x := range BackwardSlice(st.Val) {
+					for k := range srcFieldsOf(TermOf(x)) {
+						from[k] = true
+					}
+				}
+				if len(from) == 0 {
+					continue
+				}
+				n++
+				for _, f := range FactsFor(fn).At(b) {
+					for _, side := range []*Term{f.L, f.R} {
+						for k := range srcFieldsOf(side) {
+							if !from[k] {
+								bad = "dst." + dstField + " (made of src." + strings.Join(keysOf(from), ",") + ") is written only under a condition on src." + k + " (" + f.String() + ", " + p.Pos(st.Pos()) + ")"
+							}
+						}
+					}
+				}
+			}
+		}
+		c.Ob("R20.6", name+"#independent-guards", fn.Pos(), n > 0 && bad == "", "every field is converted whatever the other fields hold",
+			ifs(bad != "", bad+": an object that sets both fields loses one of them in conversion")+ifs(n == 0, "no field copy recognised"))
+	}
+
+	c.Rule("R20.7", "partial strategy accessors are called by the converters only for a non-empty strategy", 1)
+	// accessors of RolloutStrategy whose closure dereferences .Canary without a nil check of it
+	partial := map[*ssa.Function]bool{}
+	var methods []*ssa.Function
+	for _, fn := range p.RepoFuncs() {
+		if strings.HasPrefix(FuncName(fn), "api/v1beta1.RolloutStrategy.") {
+			methods = append(methods, fn)
+		}
+	}
+	for _, m := range methods {
+		ds := OptionalDerefs(m, func(owner, field string) bool {
+			return field == "Canary" && strings.HasSuffix(owner, "RolloutStrategy")
+		})
+		if len(ds) > 0 {
+			partial[m] = true
+		}
+	}
+	for changed := true; changed; {
+		changed = false
+		for _, m := range methods {
+			if partial[m] {
+				continue
+			}
+			for _, ci := range AllCalls(m) {
+				if g := ci.Common().StaticCallee(); g != nil && partial[g] {
+					// a call made under a nil check of Canary / a non-empty test is fine
+					fs := FactsAtInstr(ci.(ssa.Instruction))
+					if HasFact(fs, FNotNil(MField("Canary"))) || HasFact(fs, FNotNil(MField("BlueGreen"))) || HasFact(fs, FFalse(MCall("RolloutStrategy.IsEmptyRelease"))) {
+						continue
+					}
+					partial[m] = true
+					changed = true
+				}
+			}
+		}
+	}
+	if len(partial) == 0 {
+		c.Ob("R20.7", "partial-accessors", 0, true, "no strategy accessor dereferences the canary block unguarded", "")
+		return
+	}
+	n := 0
+	for _, name := range []string{"api/v1alpha1.Rollout.ConvertTo", "api/v1alpha1.Rollout.ConvertFrom", "api/v1alpha1.BatchRelease.ConvertTo", "api/v1alpha1.BatchRelease.ConvertFrom"} {
+		fn := p.Func(name)
+		if fn == nil {
+			continue
+		}
+		for _, f := range apiClosure(p, fn) {
+			if !strings.HasPrefix(FuncName(f), "api/v1alpha1.") {
+				continue
+			}
+			for _, ci := range AllCalls(f) {
+				g := ci.Common().StaticCallee()
+				if g == nil || !partial[g] {
+					continue
+				}
+				n++
+				fs := FactsAtInstr(ci.(ssa.Instruction))
+				ok := HasFact(fs, FFalse(MCall("RolloutStrategy.IsEmptyRelease"))) || HasFact(fs, FNotNil(MField("Canary"))) || HasFact(fs, FNotNil(MField("BlueGreen")))
+				c.Ob("R20.7", shortName(FuncName(f))+"#"+g.Name()+"-after-nonempty", ci.Pos(), ok, g.Name()+"() is called only when the strategy has a canary or a blue-green block",
+					ifs(!ok, g.Name()+"() dereferences strategy.canary when there is no blue-green block; here it is called without IsEmptyRelease() having been found false: a stored Rollout with an empty strategy (allowed by the schema) makes the conversion webhook panic")).WithFacts(fs)
+			}
+		}
+	}
+	if n == 0 {
+		c.Ob("R20.7", "converters#partial-accessor-calls", 0, true, "the converters call no partial accessor", "")
+	}
+}
+
+func keysOf(m map[string]bool) []string {
+	var out []string
+	for k := range m {
+		out = append(out, k)
+	}
+	sort.Strings(out)
+	return out
 }
